@@ -146,6 +146,7 @@ Not decided: that nom delivers the components it saw (run-time parser semantics)
     cmp_sites(m, ctx, &ev);
     non_exhaustive(m, ctx, &ev);
     groups(m, ctx, &ev);
+    reset_rule(m, ctx, "C05.env", "extensibility_environment");
 }
 
 /// sequence / set / choice deliver (root, marker, additions) in that order; enumerated_body likewise
